@@ -20,11 +20,12 @@ Shape of the output
   * an attribute of an Optional value goes through `py_need` (AttributeError).
 """
 import ast
+import json
 import os
 import sys
 
 VERIF = os.path.dirname(os.path.dirname(os.path.abspath(__file__)))
-GEN = os.path.join(VERIF, "coq", "Gen")
+GEN = os.environ.get("VERIF_GEN_DIR") or os.path.join(VERIF, "coq", "Gen")
 REPO_PKG = os.environ.get("VERIF_REPO_PKG", "/repo/flamapy/metamodels/fm_metamodel")
 
 
@@ -74,6 +75,8 @@ def coq_ty(t):
         return simple[k]
     if k == "none":
         return "unit"
+    if k == "obj":
+        return f"py_{t[1]}_state"
     if k == "opt":
         return f"(option {coq_ty(t[1])})"
     if k == "list":
@@ -190,6 +193,9 @@ EXT_FUNCS = {
 }
 
 
+OBJECTS = {}      # class name -> [(field, type, init ast)] for classes translated as state records
+
+
 class FuncInfo:
     def __init__(self, cls, node, coqname):
         self.cls, self.node, self.coqname = cls, node, coqname
@@ -199,6 +205,8 @@ class FuncInfo:
         self.fuel = False
         self.rec = False
         self.intrinsic_eff = False
+        self.mutator = False
+        self.failed = None        # why this function could not be translated
         self.has_while = False
         self.calls = set()
 
@@ -213,7 +221,9 @@ def parse_ann(a, ctx):
     if isinstance(a, ast.Name):
         m = {"int": INT, "bool": BOOL, "str": STR, "float": INT, "Feature": FEATURE, "Relation": RELATION,
              "FeatureModel": FMODEL, "Constraint": CTC, "AST": ASTT, "Node": NODE, "Any": ANY,
-             "Attribute": ATTRIBUTE}
+             "Attribute": ATTRIBUTE, "VariabilityModel": FMODEL}      # execute(model) casts to FeatureModel
+        if a.id in OBJECTS:
+            return ("obj", a.id)
         if a.id in m:
             return m[a.id]
         fail(a, "unknown annotation")
@@ -269,7 +279,10 @@ class Translator:
 
     # ---------------------------------------------------------------- helpers
     def lookup(self, key):
-        return self.funcs.get(key) or self.externals.get(key)
+        f = self.funcs.get(key) or self.externals.get(key)
+        if f is not None and f.failed:
+            raise Fail(f"calls {f.coqname}, which could not be translated")
+        return f
 
     def lift(self, vals, build):
         binds, codes = [], []
@@ -402,6 +415,11 @@ class Translator:
             self.cur.intrinsic_eff = True
             return self.lift([o], lambda c: Val(
                 f"(match {c[0]} with DOp o => Ok (astop_value o) | _ => Err AttributeError end)", STR, True))
+        if o.ty[0] == "obj":
+            fields = {f: t for f, t, _ in OBJECTS[o.ty[1]]}
+            if e.attr not in fields:
+                fail(e, f"unknown field of {o.ty[1]}")
+            return self.lift([o], lambda c: Val(f"({o.ty[1]}_{e.attr} {c[0]})", fields[e.attr]))
         k = (o.ty[0], e.attr)
         if k not in ATTRS:
             fail(e, f"unknown attribute of {o.ty}")
@@ -707,7 +725,7 @@ class Translator:
                 l = self.arg_list(e.args[0], env, INT)
                 return self.lift([l], lambda c: Val(f"(py_prod {c[0]})", INT))
             recv = self.obj(self.tr(fn.value, env))
-            k = (recv.ty[0], fn.attr)
+            k = (recv.ty[1] if recv.ty[0] == "obj" else recv.ty[0], fn.attr)
             f = self.lookup(k)
             if f is not None:
                 return self.call_func(f, [recv] + [self.tr(a, env) for a in e.args], e)
@@ -912,6 +930,8 @@ class Translator:
         fail(s, "unsupported expression statement")
 
     def note_type(self, name, ty, ctx):
+        if name == "self":
+            return ty
         old = self.vartypes.get(name, UNKNOWN)
         new = join(old, ty)
         if new != old:
@@ -981,7 +1001,22 @@ class Translator:
                 fail(s, f"dict keys of type {d.ty[1]}")
             new = self.lift([kk, vv], lambda c: Val(f"(py_dict_set {eqf} {d.code} {c[0]} {c[1]})", d.ty))
             return self.assign(t.value.id, new, rest, env, k, s)
+        if (isinstance(t, ast.Attribute) and isinstance(t.value, ast.Name) and t.value.id == "self"
+                and "self" in env.vars and env.vars["self"][1][0] == "obj"):
+            return self.assign_field(t.attr, self.tr(s.value, env), rest, env, k, s)
         fail(s, "unsupported assignment target")
+
+    def assign_field(self, field, v, rest, env, k, ctx):
+        code, ty = env.vars["self"]
+        cls = ty[1]
+        fields = OBJECTS[cls]
+        ft = {f: t for f, t, _ in fields}
+        if field not in ft:
+            fail(ctx, f"assignment to an undeclared field of {cls}")
+        v = self.coerce(v, ft[field], ctx)
+        new = self.lift([v], lambda c: Val("{| " + "; ".join(
+            f"{cls}_{f} := " + (c[0] if f == field else f"({cls}_{f} {code})") for f, _, _ in fields) + " |}", ty))
+        return self.assign("self", new, rest, env, k, ctx)
 
     def tr_value(self, e, env, name):
         if isinstance(e, ast.Dict) and not e.keys:
@@ -994,6 +1029,10 @@ class Translator:
         return self.tr(e, env)
 
     def s_AnnAssign(self, s, rest, env, k):
+        t = s.target
+        if (isinstance(t, ast.Attribute) and isinstance(t.value, ast.Name) and t.value.id == "self"
+                and s.value is not None and "self" in env.vars and env.vars["self"][1][0] == "obj"):
+            return self.assign_field(t.attr, self.tr(s.value, env), rest, env, k, s)
         if not isinstance(s.target, ast.Name) or s.value is None:
             fail(s, "unsupported annotated assignment")
         ty = OVERRIDE_VAR.get((self.cur.cls, self.cur.node.name, s.target.id)) or parse_ann(s.annotation, s)
@@ -1177,6 +1216,8 @@ class Translator:
                 env = env.bind(pn, pname(pn), pt)
             try:
                 def k_end(en):
+                    if f.mutator:
+                        return self.final(Val(en.vars["self"][0], en.vars["self"][1]))
                     fail(fnode, "control reaches the end of the function without return")
                 return self.block(fnode.body, env, k_end)
             except Retype:
@@ -1218,6 +1259,36 @@ def collect(unit):
                 if m not in ms:
                     raise Fail(f"{path}: method {cls}.{m} not found")
                 funcs[(cls, m)] = FuncInfo(cls, ms[m], f"py_{cls}_{m}")
+        for cls, methods in (unit.get("objects", {}).get(path, {})).items():
+            if cls not in classes:
+                raise Fail(f"{path}: class {cls} not found")
+            ms = {n.name: n for n in classes[cls].body if isinstance(n, ast.FunctionDef)}
+            if "__init__" not in ms:
+                raise Fail(f"{path}: {cls}.__init__ not found")
+            init = ms["__init__"]
+            if len(init.args.args) != 1:
+                fail(init, "constructor with parameters")
+            fields = []
+            for st in init.body:
+                if isinstance(st, ast.Expr) and isinstance(st.value, ast.Constant):
+                    continue
+                tg = st.target if isinstance(st, ast.AnnAssign) else (st.targets[0] if isinstance(st, ast.Assign) and len(st.targets) == 1 else None)
+                if not (isinstance(tg, ast.Attribute) and isinstance(tg.value, ast.Name) and tg.value.id == "self"):
+                    fail(st, "constructor statement other than self.<field> = <value>")
+                if isinstance(st, ast.AnnAssign):
+                    ty = parse_ann(st.annotation, st)
+                elif isinstance(st.value, ast.Constant) and isinstance(st.value.value, int) and not isinstance(st.value.value, bool):
+                    ty = INT
+                else:
+                    fail(st, "field without a type annotation")
+                fields.append((tg.attr, ty, st.value))
+            OBJECTS[cls] = fields
+            for m in methods:
+                if m not in ms:
+                    raise Fail(f"{path}: method {cls}.{m} not found")
+                fi = FuncInfo(cls, ms[m], f"py_{cls}_{m}")
+                fi.is_obj = True
+                funcs[(cls, m)] = fi
         for fn in functions:
             if fn not in topfuncs:
                 raise Fail(f"{path}: function {fn} not found")
@@ -1231,12 +1302,14 @@ def collect(unit):
         defaults = [None] * (len(a.args) - len(a.defaults)) + list(a.defaults)
         for arg, d in zip(a.args, defaults):
             if arg.arg == "self":
-                f.params.append(("self", (f.cls,), None))
+                f.params.append(("self", ("obj", f.cls) if getattr(f, "is_obj", False) else (f.cls,), None))
             elif arg.arg == "other" and f.node.name == "__eq__":
                 f.params.append(("other", (f.cls,), None))     # compared only with objects of its own class here
             else:
                 f.params.append((arg.arg, parse_ann(arg.annotation, arg), d))
         f.ret = OVERRIDE_RET.get(key) or parse_ann(f.node.returns, f.node)
+        if getattr(f, "is_obj", False) and f.ret == NONE:
+            f.ret, f.mutator = ("obj", f.cls), True       # a method that only changes the object: the new state
     return funcs, enums
 
 
@@ -1257,8 +1330,20 @@ def translate_unit(unit, externals):
                 fresh.add(name)
     tr.fresh_returning = fresh
     # pass 1: probe (everything in the monad) to learn call edges and intrinsic effects
-    for f in funcs.values():
-        tr.translate_function(f, True)
+    # a function that cannot be translated fails ALONE (and with it every function that calls it):
+    # the others are still emitted, so that a change the translator does not understand breaks the
+    # obligations of the properties that rest on that function and no others
+    progress = True
+    while progress:
+        progress = False
+        for f in funcs.values():
+            if f.failed:
+                continue
+            try:
+                f.calls = set()
+                tr.translate_function(f, True)
+            except Fail as e:
+                f.failed, progress = str(e), True
     by_name = {f.coqname: f for f in list(funcs.values()) + list(externals.values())}
     # recursion: only self-recursion is supported
     for f in funcs.values():
@@ -1275,11 +1360,16 @@ def translate_unit(unit, externals):
         r = reach(f, set())
         others = [by_name[c] for c in r if c != f.coqname and c in {g.coqname for g in funcs.values()}]
         if any(f.coqname in reach(g, set()) for g in others):
-            raise Fail(f"{f.coqname}: mutual recursion is not supported")
+            f.failed = "mutual recursion is not supported"
+    for f in funcs.values():
+        if not f.failed and any(by_name[c].failed for c in reach(f, set())):
+            f.failed = "calls a function that could not be translated"
     changed = True
     while changed:
         changed = False
         for f in funcs.values():
+            if f.failed:
+                continue
             fuel = f.rec or f.has_while or any(by_name[c].fuel for c in f.calls)
             eff = f.intrinsic_eff or fuel or any(by_name[c].eff for c in f.calls) or contains_loop(f.node)
             if fuel != f.fuel or eff != f.eff:
@@ -1299,13 +1389,36 @@ def translate_unit(unit, externals):
     for f in funcs.values():
         visit(f)
     out = []
+    for cls in [c for objs in unit.get("objects", {}).values() for c in objs]:
+        fields = OBJECTS[cls]
+        out.append(f"(* the state of a {cls} object *)\nRecord py_{cls}_state := {{ "
+                   + "; ".join(f"{cls}_{fn} : {coq_ty(ft)}" for fn, ft, _ in fields) + " }.\n")
+        tr.cur = FuncInfo(cls, None, f"py_{cls}_new")
+        tr.mode_eff = False
+        tr.assigned_names = set()
+        inits = []
+        for fn, ft, fv in fields:
+            if isinstance(fv, ast.Dict) and not fv.keys:
+                v = Val("(VMap [])", ANY) if ft == ANY else Val("[]", ft)
+            else:
+                v = tr.coerce(tr.tr(fv, Env()), ft, fv)
+            if v.eff:
+                raise Fail(f"{cls}.__init__: effectful field initialiser")
+            inits.append(f"{cls}_{fn} := {v.code}")
+        out.append(f"(* {cls}.__init__ *)\nDefinition py_{cls}_new : py_{cls}_state :=\n  {{| " + "; ".join(inits) + " |}.\n")
     for f in order:
-        tr.counter = 0
-        f.calls = set()
-        body = tr.translate_function(f, f.eff)
+        src = f"{f.cls + '.' if f.cls else ''}{f.node.name}"
+        if not f.failed:
+            tr.counter = 0
+            try:
+                body = tr.translate_function(f, f.eff)
+            except Fail as e:
+                f.failed = str(e)
+        if f.failed:
+            out.append(f"(* {src}: NOT TRANSLATED — {f.failed.replace('*)', '* )')} *)\n")
+            continue
         params = " ".join(f"({pname(pn)} : {coq_ty(pt)})" for pn, pt, pd in f.params)
         rty = coq_ty(f.ret)
-        src = f"{f.cls + '.' if f.cls else ''}{f.node.name}  (line {f.node.lineno})"
         if f.rec:
             out.append(f"(* {src} *)\nFixpoint {f.coqname} (fuel : nat) {params} {{struct fuel}} : result {rty} :=\n"
                        f"  match fuel with\n  | O => Err RuntimeError\n  | S fuel =>\n    {body}\n  end.\n")
@@ -1363,6 +1476,24 @@ UNITS = [
          ("operations/fm_average_branching_factor.py", {}, ["average_branching_factor"]),
          ("operations/fm_variation_points.py", {}, ["variation_points"]),
      ]},
+    {"name": "opobj", "imports": " Gen.Src_fm Gen.Src_ops",
+     "files": [(p, {}, []) for p in (
+         "operations/fm_estimated_configurations_number.py", "operations/fm_core_features.py",
+         "operations/fm_count_leafs.py", "operations/fm_leaf_features.py", "operations/fm_feature_ancestors.py",
+         "operations/fm_max_depth_tree.py", "operations/fm_average_branching_factor.py",
+         "operations/fm_variation_points.py")],
+     "objects": {
+         "operations/fm_estimated_configurations_number.py":
+             {"FMEstimatedConfigurationsNumber": ["execute", "get_result", "get_configurations_number"]},
+         "operations/fm_core_features.py": {"FMCoreFeatures": ["execute", "get_result", "get_core_features"]},
+         "operations/fm_count_leafs.py": {"FMCountLeafs": ["execute", "get_result", "get_number_of_leafs"]},
+         "operations/fm_leaf_features.py": {"FMLeafFeatures": ["execute", "get_result"]},
+         "operations/fm_feature_ancestors.py": {"FMFeatureAncestors": ["set_feature", "execute", "get_result"]},
+         "operations/fm_max_depth_tree.py": {"FMMaxDepthTree": ["execute", "get_result"]},
+         "operations/fm_average_branching_factor.py":
+             {"FMAverageBranchingFactor": ["execute", "get_result", "get_average_branching_factor"]},
+         "operations/fm_variation_points.py": {"FMVariationPoints": ["execute", "get_result", "variation_points"]},
+     }},
     {"name": "json", "imports": " Gen.Src_fm",
      "files": [("transformations/json_writer.py", {},
                 ["to_json", "get_tree_info", "get_attributes_info", "get_constraints_info", "get_ctc_info"])]},
@@ -1382,6 +1513,7 @@ def main():
     want = sys.argv[1:] or ["all"]
     externals = {}
     rc = 0
+    report = {}
     for unit in UNITS:
         try:
             funcs, body = translate_unit(unit, externals)
@@ -1392,10 +1524,18 @@ def main():
                   + f"(* translation failed: {str(e).replace('*)', '* )')} *)\n"
                   + "Definition py2coq_translation_failed : True := I.\n")
             rc = 1
+            report[unit["name"]] = {"unit": str(e)}
             continue
         externals.update(funcs)
+        bad = {f.coqname: f.failed for f in funcs.values() if f.failed}
+        report[unit["name"]] = bad
+        for n, why in bad.items():
+            print(f"py2coq: unit {unit['name']}: CANNOT TRANSLATE {n}: {why}")
+            rc = 1
         if "all" in want or unit["name"] in want:
             write(unit["name"], HEADER.format(extra=unit["imports"]) + body)
+    with open(os.path.join(GEN, "src_report.json"), "w") as fh:
+        json.dump(report, fh, indent=1, sort_keys=True)
     sys.exit(rc)
 
 
